@@ -52,7 +52,36 @@ func c18HashCoverage(p *Prog) *RuleResult {
 	if !r.Anchor("linker.(*linkerContext).generateChunksInParallel", gen != nil) || !r.Anchor("linker.(*linkerContext).generateIsolatedHash", iso != nil) || !r.Anchor("linker.(*linkerContext).appendIsolatedHashesForImportedChunks", app != nil) {
 		return r
 	}
-	hashed := chunkFieldsRead(append(withClosures(iso), withClosures(app)...))
+	// inputs of the hash: chunk fields in the data slice of a hash write (a field that is merely read
+	// in the hashing function — in a condition, say — is not hashed)
+	hashed := map[string]token.Pos{}
+	for _, hf := range append(withClosures(iso), withClosures(app)...) {
+		eachInstr(hf, func(b *ssa.BasicBlock, in ssa.Instruction) {
+			c, ok := in.(*ssa.Call)
+			if !ok {
+				return
+			}
+			name := calleeFullName(c)
+			if !strings.HasSuffix(name, "linker.hashWriteUint32") && !strings.HasSuffix(name, "linker.hashWriteLengthPrefixed") && name != "invoke (hash.Hash).Write" && name != "invoke (io.Writer).Write" && !strings.HasSuffix(name, "xxhash.Digest).Write") {
+				return
+			}
+			for _, a := range c.Call.Args {
+				backSlice(a, func(v ssa.Value) bool {
+					switch x := v.(type) {
+					case *ssa.FieldAddr:
+						if namedTypeName(x.X.Type()) == "linker.chunkInfo" {
+							hashed[fieldAddrName(x)] = x.Pos()
+						}
+					case *ssa.Field:
+						if namedTypeName(x.X.Type()) == "linker.chunkInfo" {
+							hashed[fieldValName(x)] = x.Pos()
+						}
+					}
+					return true
+				})
+			}
+		})
+	}
 	// the emission closure: the closure of generateChunksInParallel that stores OutputFile.Contents
 	var emit *ssa.Function
 	var contentStores []*ssa.Store
